@@ -251,7 +251,8 @@ class RealStorage:
         def actor(storage, script, who, writer):
             storage.reader_only = not writer
             ops = []
-            storage.open()
+            if writer or plan.get("readers_open", True):
+                storage.open()
             try:
                 for op in script:
                     a = time.monotonic()
@@ -289,13 +290,41 @@ class RealStorage:
 
         procs = [ctx.Process(target=actor, args=(storage, s, f"w{i}", True)) for i, s in enumerate(plan["writer_scripts"])]
         procs += [ctx.Process(target=actor, args=(storage, s, f"r{i}", False)) for i, s in enumerate(plan["reader_scripts"])]
+        allops = []
+        if plan.get("parent_stores_first"):
+            # the parent stores (and closes, or not) BEFORE the processes are forked
+            storage.open()
+            a = time.monotonic()
+            storage[plan["n"] + 3] = "stored by the parent before any fork"
+            allops.append({"who": "parent", "kind": "store", "g": plan["n"] + 3, "ok": True, "a": a, "b": time.monotonic(),
+                           "text": "stored by the parent before any fork"})
+            if plan["parent_stores_first"] == "closed":
+                storage.close()
         for p in procs:
             p.start()
-        allops = []
+        if plan.get("parent_stores_first") == "open":
+            storage.close()
         for _ in procs:
             allops.extend(q.get())
         for p in procs:
             p.join()
+        if plan.get("late_readers"):
+            # the parent reads, THEN reader processes are forked
+            storage.reader_only = True
+            for g in plan["late_parent_reads"]:
+                try:
+                    storage[g]
+                except IndexError:
+                    pass
+            late = [ctx.Process(target=actor, args=(storage, sc, f"late-r{i}", False)) for i, sc in enumerate(plan["late_readers"])]
+            for p in late:
+                p.start()
+            for _ in late:
+                allops.extend(q.get())
+            for p in late:
+                p.join()
+            procs += late
+            storage.close()
         hist = c14.History()
         hist.ops = allops
         obs = {"hist": hist, "exitcodes": [p.exitcode for p in procs], "phase": "quiescent"}
